@@ -1,2 +1,335 @@
-//! code / flag / header tables against literal numbers from the standards
+//! Code / flag / header tables against literal numbers typed in from the OASIS documents
+//! (MQTT 3.1.1 os, MQTT 5.0 os).  Every harness is loop-free over the full u8 / u32 domain: complete.
 use super::*;
+use std::convert::TryFrom;
+
+/// Option-returning `from_u8` against a literal table; also pins every variant's wire number
+/// and (via the exhaustive match) that the code has no variant the table lacks.
+macro_rules! code_table {
+    ($h:ident, $ty:ty, $from:expr, $tag:literal, [$( $var:ident = $num:literal ),* $(,)?]) => {
+        #[kani::proof]
+        fn $h() {
+            let b: u8 = kani::any();
+            let expect: Option<$ty> = match b { $( $num => Some(<$ty>::$var), )* _ => None };
+            let got: Option<$ty> = ($from)(b);
+            assert!(got == expect, concat!("C04:", $tag, ":from_u8-equals-standard-table"));
+            if let Some(x) = got {
+                assert!(x as u8 == b, concat!("C01:", $tag, ":as-u8-inverts-from_u8"));
+                match x { $( <$ty>::$var => {} ),* }
+            }
+            $( assert!(<$ty>::$var as u8 == $num, concat!("C10:", $tag, ":variant-wire-number")); )*
+            $( assert!(($from)($num) == Some(<$ty>::$var), concat!("C01:", $tag, ":from_u8-inverts-as-u8")); )*
+        }
+    };
+}
+
+//@ id=table.v5.ConnectReasonCode props=C01,C04,C10,C11,C20 kind=complete tier=quick
+code_table!(k_tbl_connect_reason, v5::ConnectReasonCode, v5::ConnectReasonCode::from_u8, "v5.ConnectReasonCode", [
+    Success = 0x00, UnspecifiedError = 0x80, MalformedPacket = 0x81, ProtocolError = 0x82,
+    ImplementationSpecificError = 0x83, UnsupportedProtocolVersion = 0x84, ClientIdentifierNotValid = 0x85,
+    BadUserNameOrPassword = 0x86, NotAuthorized = 0x87, ServerUnavailable = 0x88, ServerBusy = 0x89, Banned = 0x8A,
+    BadAuthMethod = 0x8C, TopicNameInvalid = 0x90, PacketTooLarge = 0x95, QuotaExceeded = 0x97,
+    PayloadFormatInvalid = 0x99, RetainNotSupported = 0x9A, QoSNotSupported = 0x9B, UseAnotherServer = 0x9C,
+    ServerMoved = 0x9D, ConnectionRateExceeded = 0x9F,
+]);
+
+//@ id=table.v5.DisconnectReasonCode props=C01,C04,C10,C11,C20 kind=complete tier=quick
+code_table!(k_tbl_disconnect_reason, v5::DisconnectReasonCode, v5::DisconnectReasonCode::from_u8, "v5.DisconnectReasonCode", [
+    NormalDisconnect = 0x00, DisconnectWithWillMessage = 0x04, UnspecifiedError = 0x80, MalformedPacket = 0x81,
+    ProtocolError = 0x82, ImplementationSpecificError = 0x83, NotAuthorized = 0x87, ServerBusy = 0x89,
+    ServerShuttingDown = 0x8B, KeepAliveTimeout = 0x8D, SessionTakenOver = 0x8E, TopicFilterInvalid = 0x8F,
+    TopicNameInvalid = 0x90, ReceiveMaximumExceeded = 0x93, TopicAliasInvalid = 0x94, PacketTooLarge = 0x95,
+    MessageRateTooHigh = 0x96, QuotaExceeded = 0x97, AdministrativeAction = 0x98, PayloadFormatInvalid = 0x99,
+    RetainNotSupported = 0x9A, QoSNotSupported = 0x9B, UserAnotherServer = 0x9C, ServerMoved = 0x9D,
+    SharedSubscriptionNotSupported = 0x9E, ConnectionRateExceeded = 0x9F, MaximumConnectTime = 0xA0,
+    SubscriptionIdentifiersNotSupported = 0xA1, WildcardSubscriptionsNotSupported = 0xA2,
+]);
+
+//@ id=table.v5.AuthReasonCode props=C01,C04,C10,C11,C20 kind=complete tier=quick
+code_table!(k_tbl_auth_reason, v5::AuthReasonCode, v5::AuthReasonCode::from_u8, "v5.AuthReasonCode", [
+    Success = 0x00, ContinueAuthentication = 0x18, ReAuthentication = 0x19,
+]);
+
+//@ id=table.v5.PubackReasonCode props=C01,C04,C10,C11,C20 kind=complete tier=quick
+code_table!(k_tbl_puback_reason, v5::PubackReasonCode, v5::PubackReasonCode::from_u8, "v5.PubackReasonCode", [
+    Success = 0x00, NoMatchingSubscribers = 0x10, UnspecifiedError = 0x80, ImplementationSpecificError = 0x83,
+    NotAuthorized = 0x87, TopicNameInvalid = 0x90, PacketIdentifierInUse = 0x91, QuotaExceeded = 0x97,
+    PayloadFormatInvalid = 0x99,
+]);
+
+//@ id=table.v5.PubrecReasonCode props=C01,C04,C10,C11,C20 kind=complete tier=quick
+code_table!(k_tbl_pubrec_reason, v5::PubrecReasonCode, v5::PubrecReasonCode::from_u8, "v5.PubrecReasonCode", [
+    Success = 0x00, NoMatchingSubscribers = 0x10, UnspecifiedError = 0x80, ImplementationSpecificError = 0x83,
+    NotAuthorized = 0x87, TopicNameInvalid = 0x90, PacketIdentifierInUse = 0x91, QuotaExceeded = 0x97,
+    PayloadFormatInvalid = 0x99,
+]);
+
+//@ id=table.v5.PubrelReasonCode props=C01,C04,C10,C11,C20 kind=complete tier=quick
+code_table!(k_tbl_pubrel_reason, v5::PubrelReasonCode, v5::PubrelReasonCode::from_u8, "v5.PubrelReasonCode", [
+    Success = 0x00, PacketIdentifierNotFound = 0x92,
+]);
+
+//@ id=table.v5.PubcompReasonCode props=C01,C04,C10,C11,C20 kind=complete tier=quick
+code_table!(k_tbl_pubcomp_reason, v5::PubcompReasonCode, v5::PubcompReasonCode::from_u8, "v5.PubcompReasonCode", [
+    Success = 0x00, PacketIdentifierNotFound = 0x92,
+]);
+
+//@ id=table.v5.SubscribeReasonCode props=C01,C04,C10,C11,C20 kind=complete tier=quick
+code_table!(k_tbl_subscribe_reason, v5::SubscribeReasonCode, v5::SubscribeReasonCode::from_u8, "v5.SubscribeReasonCode", [
+    GrantedQoS0 = 0x00, GrantedQoS1 = 0x01, GrantedQoS2 = 0x02, UnspecifiedError = 0x80,
+    ImplementationSpecificError = 0x83, NotAuthorized = 0x87, TopicFilterInvalid = 0x8F, PacketIdentifierInUse = 0x91,
+    QuotaExceeded = 0x97, SharedSubscriptionNotSupported = 0x9E, SubscriptionIdentifiersNotSupported = 0xA1,
+    WildcardSubscriptionsNotSupported = 0xA2,
+]);
+
+//@ id=table.v5.UnsubscribeReasonCode props=C01,C04,C10,C11,C20 kind=complete tier=quick
+code_table!(k_tbl_unsubscribe_reason, v5::UnsubscribeReasonCode, v5::UnsubscribeReasonCode::from_u8, "v5.UnsubscribeReasonCode", [
+    Success = 0x00, NoSubscriptionExisted = 0x11, UnspecifiedError = 0x80, ImplementationSpecificError = 0x83,
+    NotAuthorized = 0x87, TopicFilterInvalid = 0x8F, PacketIdentifierInUse = 0x91,
+]);
+
+//@ id=table.v5.RetainHandling props=C01,C04,C10,C11,C20 kind=complete tier=quick
+code_table!(k_tbl_retain_handling, v5::RetainHandling, v5::RetainHandling::from_u8, "v5.RetainHandling", [
+    SendAtSubscribe = 0, SendAtSubscribeIfNotExist = 1, DoNotSend = 2,
+]);
+
+fn ok_or_none<T, E>(r: Result<T, E>) -> Option<T> { match r { Ok(v) => Some(v), Err(_) => None } }
+
+//@ id=table.QoS props=C01,C04,C10,C11,C20 kind=complete tier=quick
+code_table!(k_tbl_qos, QoS, |b| ok_or_none(QoS::from_u8(b)), "QoS", [Level0 = 0, Level1 = 1, Level2 = 2]);
+
+//@ id=table.v3.ConnectReturnCode props=C01,C04,C10,C11,C20 kind=complete tier=quick
+code_table!(k_tbl_v3_connect_return, v3::ConnectReturnCode, |b| ok_or_none(v3::ConnectReturnCode::from_u8(b)), "v3.ConnectReturnCode", [
+    Accepted = 0, UnacceptableProtocolVersion = 1, IdentifierRejected = 2, ServerUnavailable = 3,
+    BadUserNameOrPassword = 4, NotAuthorized = 5,
+]);
+
+//@ id=table.v3.SubscribeReturnCode props=C01,C04,C10,C11,C20 kind=complete tier=quick
+code_table!(k_tbl_v3_subscribe_return, v3::SubscribeReturnCode, |b| ok_or_none(v3::SubscribeReturnCode::from_u8(b)), "v3.SubscribeReturnCode", [
+    MaxLevel0 = 0x00, MaxLevel1 = 0x01, MaxLevel2 = 0x02, Failure = 0x80,
+]);
+
+//@ id=table.v5.PropertyId props=C01,C04,C10,C11,C20 kind=complete tier=quick
+code_table!(k_tbl_property_id, v5::PropertyId, |b| ok_or_none(v5::PropertyId::from_u8(b)), "v5.PropertyId", [
+    PayloadFormatIndicator = 0x01, MessageExpiryInterval = 0x02, ContentType = 0x03, ResponseTopic = 0x08,
+    CorrelationData = 0x09, SubscriptionIdentifier = 0x0B, SessionExpiryInterval = 0x11,
+    AssignedClientIdentifier = 0x12, ServerKeepAlive = 0x13, AuthenticationMethod = 0x15, AuthenticationData = 0x16,
+    RequestProblemInformation = 0x17, WillDelayInterval = 0x18, RequestResponseInformation = 0x19,
+    ResponseInformation = 0x1A, ServerReference = 0x1C, ReasonString = 0x1F, ReceiveMaximum = 0x21,
+    TopicAliasMaximum = 0x22, TopicAlias = 0x23, MaximumQoS = 0x24, RetainAvailable = 0x25, UserProperty = 0x26,
+    MaximumPacketSize = 0x27, WildcardSubscriptionAvailable = 0x28, SubscriptionIdentifierAvailable = 0x29,
+    SharedSubscriptionAvailable = 0x2A,
+]);
+
+// ---- documented error variant + offending value for the Result-returning tables (C20)
+//@ id=table.errors props=C20 kind=complete tier=quick
+#[kani::proof]
+fn k_tbl_error_variants() {
+    let b: u8 = kani::any();
+    if let Err(e) = QoS::from_u8(b) {
+        assert!(matches!(e, Error::InvalidQos(n) if n == b), "C20:QoS.from_u8:InvalidQos-carries-byte");
+    }
+    if let Err(e) = v3::ConnectReturnCode::from_u8(b) {
+        assert!(matches!(e, Error::InvalidConnectReturnCode(n) if n == b), "C20:v3.ConnectReturnCode:InvalidConnectReturnCode-carries-byte");
+    }
+    if let Err(e) = v3::SubscribeReturnCode::from_u8(b) {
+        assert!(matches!(e, Error::InvalidQos(n) if n == b), "C20:v3.SubscribeReturnCode:InvalidQos-carries-byte");
+    }
+    if let Err(e) = v5::PropertyId::from_u8(b) {
+        assert!(matches!(e, v5::ErrorV5::InvalidPropertyId(n) if n == b), "C20:v5.PropertyId:InvalidPropertyId-carries-byte");
+    }
+    let v: u32 = kani::any();
+    match v5::VarByteInt::try_from(v) {
+        Ok(x) => { assert!(v < 268_435_456, "C12:VarByteInt:below-2^28"); assert!(x.value() == v, "C01:VarByteInt:value-preserved"); }
+        Err(e) => { assert!(v >= 268_435_456, "C15:VarByteInt:rejects-only-2^28-and-above");
+                    assert!(matches!(e, v5::ErrorV5::Common(Error::InvalidVarByteInt)), "C20:VarByteInt:InvalidVarByteInt"); }
+    }
+}
+
+// ---- From<QoS> for v3 SubscribeReturnCode
+//@ id=table.v3.qos-to-return-code props=C10 kind=complete tier=quick
+#[kani::proof]
+fn k_tbl_qos_to_return_code() {
+    assert!(v3::SubscribeReturnCode::from(QoS::Level0) as u8 == 0, "C10:v3.SubscribeReturnCode.from(QoS0)");
+    assert!(v3::SubscribeReturnCode::from(QoS::Level1) as u8 == 1, "C10:v3.SubscribeReturnCode.from(QoS1)");
+    assert!(v3::SubscribeReturnCode::from(QoS::Level2) as u8 == 2, "C10:v3.SubscribeReturnCode.from(QoS2)");
+}
+
+// ---------------------------------------------------------------- fixed header first byte (MQTT 3.1.1 Table 2.1/2.2, MQTT 5.0 Table 2-1/2-2)
+#[derive(PartialEq, Eq, Clone, Copy)]
+enum Ty { Connect, Connack, Publish, Puback, Pubrec, Pubrel, Pubcomp, Subscribe, Suback, Unsubscribe, Unsuback, Pingreq, Pingresp, Disconnect, Auth }
+
+/// (type, dup, qos, retain) the standard assigns to a control byte, None if malformed; `v5` adds AUTH (15)
+fn spec_header(hd: u8, v5: bool) -> Result<(Ty, bool, u8, bool), Option<u8>> {
+    let nib = hd / 16;
+    let fl = hd % 16;
+    let fixed = |t: Ty, want: u8| if fl == want { Ok((t, false, 0, false)) } else { Err(None) };
+    match nib {
+        1 => fixed(Ty::Connect, 0), 2 => fixed(Ty::Connack, 0),
+        3 => { let q = (fl / 2) % 4; if q == 3 { Err(Some(3)) } else { Ok((Ty::Publish, fl >= 8, q, fl % 2 == 1)) } }
+        4 => fixed(Ty::Puback, 0), 5 => fixed(Ty::Pubrec, 0), 6 => fixed(Ty::Pubrel, 2), 7 => fixed(Ty::Pubcomp, 0),
+        8 => fixed(Ty::Subscribe, 2), 9 => fixed(Ty::Suback, 0), 10 => fixed(Ty::Unsubscribe, 2), 11 => fixed(Ty::Unsuback, 0),
+        12 => fixed(Ty::Pingreq, 0), 13 => fixed(Ty::Pingresp, 0), 14 => fixed(Ty::Disconnect, 0),
+        15 if v5 => fixed(Ty::Auth, 0),
+        _ => Err(None),
+    }
+}
+fn ty3(t: v3::PacketType) -> Ty { use v3::PacketType as P; match t {
+    P::Connect => Ty::Connect, P::Connack => Ty::Connack, P::Publish => Ty::Publish, P::Puback => Ty::Puback, P::Pubrec => Ty::Pubrec,
+    P::Pubrel => Ty::Pubrel, P::Pubcomp => Ty::Pubcomp, P::Subscribe => Ty::Subscribe, P::Suback => Ty::Suback,
+    P::Unsubscribe => Ty::Unsubscribe, P::Unsuback => Ty::Unsuback, P::Pingreq => Ty::Pingreq, P::Pingresp => Ty::Pingresp,
+    P::Disconnect => Ty::Disconnect } }
+fn ty5(t: v5::PacketType) -> Ty { use v5::PacketType as P; match t {
+    P::Connect => Ty::Connect, P::Connack => Ty::Connack, P::Publish => Ty::Publish, P::Puback => Ty::Puback, P::Pubrec => Ty::Pubrec,
+    P::Pubrel => Ty::Pubrel, P::Pubcomp => Ty::Pubcomp, P::Subscribe => Ty::Subscribe, P::Suback => Ty::Suback,
+    P::Unsubscribe => Ty::Unsubscribe, P::Unsuback => Ty::Unsuback, P::Pingreq => Ty::Pingreq, P::Pingresp => Ty::Pingresp,
+    P::Disconnect => Ty::Disconnect, P::Auth => Ty::Auth } }
+
+//@ id=header.v3.new_with props=C01,C04,C06,C10,C20 kind=complete tier=quick
+#[kani::proof]
+fn k_header_v3_new_with() {
+    let hd: u8 = kani::any();
+    let rl: u32 = kani::any();
+    match (v3::Header::new_with(hd, rl), spec_header(hd, false)) {
+        (Ok(h), Ok((t, dup, q, ret))) => {
+            assert!(ty3(h.typ) == t, "C04:v3.Header.new_with:type");
+            assert!(h.dup == dup && h.qos as u8 == q && h.retain == ret, "C04:v3.Header.new_with:flags");
+            assert!(h.remaining_len == rl, "C04:v3.Header.new_with:remaining-length-kept");
+        }
+        (Err(e), Err(None)) => assert!(matches!(e, Error::InvalidHeader), "C20:v3.Header.new_with:InvalidHeader"),
+        (Err(e), Err(Some(q))) => assert!(matches!(e, Error::InvalidQos(n) if n == q), "C20:v3.Header.new_with:InvalidQos(3)"),
+        _ => assert!(false, "C04:v3.Header.new_with:accepts-exactly-legal-type-flag-nibbles"),
+    }
+}
+
+//@ id=header.v5.new_with props=C01,C04,C06,C10,C20 kind=complete tier=quick
+#[kani::proof]
+fn k_header_v5_new_with() {
+    let hd: u8 = kani::any();
+    let rl: u32 = kani::any();
+    match (v5::Header::new_with(hd, rl), spec_header(hd, true)) {
+        (Ok(h), Ok((t, dup, q, ret))) => {
+            assert!(ty5(h.typ) == t, "C04:v5.Header.new_with:type");
+            assert!(h.dup == dup && h.qos as u8 == q && h.retain == ret, "C04:v5.Header.new_with:flags");
+            assert!(h.remaining_len == rl, "C04:v5.Header.new_with:remaining-length-kept");
+        }
+        (Err(e), Err(None)) => assert!(matches!(e, v5::ErrorV5::Common(Error::InvalidHeader)), "C20:v5.Header.new_with:InvalidHeader"),
+        (Err(e), Err(Some(q))) => assert!(matches!(e, v5::ErrorV5::Common(Error::InvalidQos(n)) if n == q), "C20:v5.Header.new_with:InvalidQos(3)"),
+        _ => assert!(false, "C04:v5.Header.new_with:accepts-exactly-legal-type-flag-nibbles"),
+    }
+}
+
+// ---------------------------------------------------------------- v5 subscription options byte (MQTT 5.0 §3.8.3.1)
+//@ id=subopts.to_u8 props=C01,C10 kind=complete tier=quick
+#[kani::proof]
+fn k_subscription_options_to_u8() {
+    let q: u8 = kani::any(); kani::assume(q <= 2);
+    let rh: u8 = kani::any(); kani::assume(rh <= 2);
+    let o = v5::SubscriptionOptions {
+        max_qos: QoS::from_u8(q).unwrap(), no_local: kani::any(), retain_as_published: kani::any(),
+        retain_handling: v5::RetainHandling::from_u8(rh).unwrap(),
+    };
+    let b = o.to_u8();
+    // bits 0-1 QoS, bit 2 NL, bit 3 RAP, bits 4-5 retain handling, bits 6-7 reserved 0
+    assert!(b % 4 == q, "C10:SubscriptionOptions.to_u8:qos-bits");
+    assert!((b / 4) % 2 == o.no_local as u8, "C10:SubscriptionOptions.to_u8:no-local-bit");
+    assert!((b / 8) % 2 == o.retain_as_published as u8, "C10:SubscriptionOptions.to_u8:rap-bit");
+    assert!((b / 16) % 4 == rh, "C10:SubscriptionOptions.to_u8:retain-handling-bits");
+    assert!(b / 64 == 0, "C10:SubscriptionOptions.to_u8:reserved-bits-zero");
+}
+
+// ---------------------------------------------------------------- Protocol (name, level) table (MQTT 3.1 / 3.1.1 §3.1.2.1-2, 5.0 §3.1.2.1-2)
+//@ id=protocol.to_pair props=C01,C10,C13 kind=complete tier=quick
+#[kani::proof]
+fn k_protocol_to_pair() {
+    assert!(Protocol::V310.to_pair() == (&b"MQIsdp"[..], 3), "C10:Protocol.to_pair:V310");
+    assert!(Protocol::V311.to_pair() == (&b"MQTT"[..], 4), "C10:Protocol.to_pair:V311");
+    assert!(Protocol::V500.to_pair() == (&b"MQTT"[..], 5), "C10:Protocol.to_pair:V500");
+    assert!(Protocol::V310 as u8 == 3 && Protocol::V311 as u8 == 4 && Protocol::V500 as u8 == 5, "C10:Protocol:level-numbers");
+    assert!(Protocol::V310.encode_len() == 9 && Protocol::V311.encode_len() == 7 && Protocol::V500.encode_len() == 7, "C02:Protocol.encode_len");
+}
+
+/// simdutf8 uses runtime CPU-feature dispatch (inline asm / atomics); under Kani it is replaced by core's validator (A4)
+pub(crate) fn stub_from_utf8(input: &[u8]) -> Result<&str, simdutf8::basic::Utf8Error> {
+    match core::str::from_utf8(input) {
+        Ok(s) => Ok(s),
+        Err(_) => Err(unsafe { std::mem::transmute::<(), simdutf8::basic::Utf8Error>(()) }),
+    }
+}
+
+//@ id=protocol.new props=C04,C13,C20 kind=bounded(name<=7bytes,ascii-or-one-invalid-byte) tier=quick
+#[kani::proof]
+#[kani::unwind(9)]
+#[kani::stub(simdutf8::basic::from_utf8, stub_from_utf8)]
+fn k_protocol_new() {
+    let name: [u8; 7] = kani::any();
+    let n: usize = kani::any();
+    kani::assume(n <= 7);
+    let level: u8 = kani::any();
+    let nm = &name[..n];
+    let is_isdp = n == 6 && name[0] == b'M' && name[1] == b'Q' && name[2] == b'I' && name[3] == b's' && name[4] == b'd' && name[5] == b'p';
+    let is_mqtt = n == 4 && name[0] == b'M' && name[1] == b'Q' && name[2] == b'T' && name[3] == b'T';
+    match Protocol::new(nm, level) {
+        Ok(p) => {
+            assert!((is_isdp && level == 3 && p == Protocol::V310) || (is_mqtt && level == 4 && p == Protocol::V311)
+                    || (is_mqtt && level == 5 && p == Protocol::V500), "C13:Protocol.new:accepts-only-the-three-pairs");
+        }
+        Err(e) => {
+            assert!(!((is_isdp && level == 3) || (is_mqtt && (level == 4 || level == 5))), "C13:Protocol.new:accepts-the-three-pairs");
+            match e {
+                Error::InvalidProtocol(s, l) => { assert!(l == level, "C20:Protocol.new:InvalidProtocol-carries-level");
+                                                   assert!(s.len() == n, "C20:Protocol.new:InvalidProtocol-carries-name"); }
+                Error::InvalidString => {}
+                _ => assert!(false, "C20:Protocol.new:error-is-InvalidProtocol-or-InvalidString"),
+            }
+        }
+    }
+}
+
+// ---------------------------------------------------------------- error conversions (C14) and is_eof (C07)
+fn any_kind() -> io::ErrorKind {
+    use io::ErrorKind::*;
+    let k: u8 = kani::any();
+    match k { 0 => NotFound, 1 => PermissionDenied, 2 => ConnectionRefused, 3 => ConnectionReset, 4 => ConnectionAborted,
+        5 => NotConnected, 6 => AddrInUse, 7 => AddrNotAvailable, 8 => BrokenPipe, 9 => AlreadyExists, 10 => WouldBlock,
+        11 => InvalidInput, 12 => InvalidData, 13 => TimedOut, 14 => WriteZero, 15 => Interrupted, 16 => Unsupported,
+        17 => UnexpectedEof, 18 => OutOfMemory, _ => Other }
+}
+
+//@ id=errors.conversions props=C07,C14 kind=complete tier=quick
+#[kani::proof]
+fn k_error_conversions() {
+    let k = any_kind();
+    // codec error -> io::Error keeps the kind; protocol errors -> InvalidData
+    let e = Error::IoError(k, String::new());
+    assert!(e.is_eof() == (k == io::ErrorKind::UnexpectedEof), "C07:Error.is_eof:iff-UnexpectedEof");
+    let back: io::Error = e.into();
+    assert!(back.kind() == k, "C14:Error->io::Error:kind-preserved");
+    let p: io::Error = Error::InvalidHeader.into();
+    assert!(p.kind() == io::ErrorKind::InvalidData, "C14:Error->io::Error:protocol-error-is-InvalidData");
+    let p2: io::Error = Error::ZeroPid.into();
+    assert!(p2.kind() == io::ErrorKind::InvalidData, "C14:Error->io::Error:protocol-error-is-InvalidData");
+    assert!(!Error::InvalidHeader.is_eof() && !Error::InvalidRemainingLength.is_eof(), "C07:Error.is_eof:protocol-errors-are-not-eof");
+    let e5 = v5::ErrorV5::Common(Error::IoError(k, String::new()));
+    assert!(e5.is_eof() == (k == io::ErrorKind::UnexpectedEof), "C07:ErrorV5.is_eof:iff-UnexpectedEof");
+    assert!(!v5::ErrorV5::InvalidPayloadFormat.is_eof() && !v5::ErrorV5::InvalidPropertyLength(0).is_eof(), "C07:ErrorV5.is_eof:protocol-errors-are-not-eof");
+    let c: v5::ErrorV5 = Error::InvalidHeader.into();
+    assert!(matches!(c, v5::ErrorV5::Common(Error::InvalidHeader)), "C14:Error->ErrorV5:wrapped-in-Common");
+}
+
+// ---------------------------------------------------------------- VarBytes::as_ref and the fixed-size encoder arms (C09, C01, C02)
+//@ id=varbytes.as_ref props=C09 kind=complete tier=quick
+#[kani::proof]
+fn k_varbytes_as_ref() {
+    let a: [u8; 2] = kani::any();
+    let b: [u8; 4] = kani::any();
+    let va = VarBytes::Fixed2(a);
+    let vb = VarBytes::Fixed4(b);
+    let ra: &[u8] = va.as_ref();
+    let rb: &[u8] = vb.as_ref();
+    assert!(ra.len() == 2 && ra[0] == a[0] && ra[1] == a[1], "C09:VarBytes.as_ref:Fixed2");
+    assert!(rb.len() == 4 && rb[0] == b[0] && rb[1] == b[1] && rb[2] == b[2] && rb[3] == b[3], "C09:VarBytes.as_ref:Fixed4");
+}
+
+// (the fixed-size arms of Packet::encode — PUBACK..UNSUBACK, CONNACK, PING*, DISCONNECT — are proved in the Verus
+//  units v3/v5: under CBMC the whole Packet::encode match, with every Vec-based arm, did not finish in 100 s.)
